@@ -70,6 +70,60 @@ CHECKS.update({
     ),
 })
 
+CHECKS.update({
+    "C03": dict(
+        text="Product-exhaustive: register size 1-3 (4), the gate alphabet {X, H, Rz, CX, A2, A3, I_X, N1} on EVERY ordered tuple of distinct "
+             "qubits with two angles, all gate sequences of length <= 2 (3), each under every structural embedding (plain, loop, macro with "
+             "qubit and angle parameters, alias of a strided alias, let with and without override, parallel block in both branch orders, "
+             "subcircuit block, whole section in a loop), two subcircuits per program; the emulator's state vector and probabilities are "
+             "compared with an independent dense simulator (own embedding of gate matrices with generic, pairwise distinct entries) and with "
+             "a chained differential oracle from the emulator's own intermediate state.",
+        note="gate matrices are shared fixtures (mc/gates.py); the reference embedding/ordering (mc/ref/sim.py) and alias arithmetic are independent; 1e-9 tolerance",
+        technique="product-exhaustive enumeration of gate sequences x qubit tuples x embeddings; emulator vs independent dense simulator",
+        ref="5/C03",
+    ),
+    "C09": dict(
+        text="Tree-exhaustive placements of subcircuit blocks (count none/literal/let), explicit prepare/measure sections, macros containing "
+             "subcircuits and subcircuits containing loops, in sequential blocks and loops (0,1,2,let), under four native-gate situations; "
+             "structural oracle (no subcircuit left in body or macro bodies, denotation equals the model's with sub -> prepare;B;measure, "
+             "bounding definitions are the native / supplied ones, header unchanged) and behavioural oracle (same run_jaqal_circuit result and "
+             "same parse_jaqal_output_list result for EVERY output list as the model-rewritten prepare/measure twin).",
+        note="node bound 4 (quick) / 5 (thorough); output lists over {0..3} up to length 3; numpy seeded; fuel-bounded execution",
+        technique="tree-exhaustive enumeration of subcircuit placements; real pass and emulator vs reference rewriting (differential twin)",
+        ref="5/C09",
+    ),
+    "C10": dict(
+        text="Explicit-state search: for every (program, override) the graph of circuits reachable by histories over {expand_subcircuits, "
+             "fill_in_let(ov), expand_macros, expand_macros(preserve), fill_in_map} is explored breadth-first to depth 4 (5) with canonical-form "
+             "deduplication; in every state the denotation must equal the reference model's, re-applying the last pass must give an equal "
+             "circuit and identical text, and the generated text must parse back with the same meaning; the parser's expand flags must equal "
+             "the corresponding compositions.",
+        note="JaqalError = pass not applicable; fill_in_map only after fill_in_let when overrides are given; meaning modulo subcircuit == prepare..measure once expand_subcircuits is on the path; one known finding (nested expanded subcircuit block is not legal Jaqal)",
+        technique="explicit-state BFS over pass histories on the real passes with canonical-form dedup; invariant = reference denotation",
+        ref="5/C10",
+    ),
+    "C16": dict(
+        text="Space 1: EVERY character string up to length 4 (5) over an 18 (23) character alphabet, alone and after 8 seed contexts, plus "
+             "every single-character edit of 25 seed programs, through parse / header parse / autoload parse / emulation under a deterministic "
+             "fuel budget: only JaqalError (JaqalParseError with a position for syntax errors) or ImportError may escape, nothing may hang. "
+             "Space 2: state graph over call histories (13-19 calls, length <= 2 each in a fresh interpreter, length <= 3 (4) back to back in "
+             "one process): every call's outcome must equal its fresh-interpreter baseline wherever it occurs.",
+        note="emulation only for registers <= 5 qubits; exact positions are C02's; importlib.util deliberately not pre-imported in the history driver",
+        technique="exhaustive enumeration of short character strings + explicit-state exploration of call histories against fresh-process baselines",
+        ref="5/C16",
+    ),
+    "C17": dict(
+        text="Tree-exhaustive programs over the features all three front ends express (lets, one register sized by literal or let, gates with "
+             "number/let/qubit arguments, seq/par nesting, loops and subcircuits with literal or let counts) plus every combination of "
+             "user-chosen and anonymous names from the auto-namer's own pattern; each AST is built as text, through build(), through the "
+             "object-oriented builders (two styles) and through a generic @circuit Q-syntax function; circuits must be pairwise == both ways, "
+             "structurally equal to the model, wrapped in prepare/measure exactly when the model says, and generated names fresh.",
+        note="which fresh names are chosen is not judged (read back from the Q-syntax circuit); '{ }; prepare_all' leaves the wrap rule undecided and is not judged",
+        technique="tree-exhaustive enumeration of programs x naming combinations; three front ends compared pairwise and with a structural model",
+        ref="5/C17",
+    ),
+})
+
 NOT_YET = {}
 
 
